@@ -42,6 +42,7 @@ def exactness(cname, sym_pre=True):
                 obs.append(('%s:D%d%d' % (cname, a, c), D[a, c] == Dref[a, c], dict(info, sig='D')))
         # vacuity twins at a concrete instantiation of the inputs (the stub equations must be satisfiable there
         # and the perturbed obligations false)
+        obs += inter.solver_conformance(cname, info, calc)
         hyp = inter.concrete_instance(inp)
         tw = {'hyp': hyp, 'timeout_ms': 20000}
         obs.append(('twin:%s:D00-perturbed' % cname, D[0, 0] == Dref[0, 0] * (1 + 1e-6), tw))
@@ -117,7 +118,7 @@ def main():
     import warnings
     warnings.simplefilter('ignore')
     if REPLAY:
-        run.replay_main('C02', {'D': replay_D})
+        run.replay_main('C02', {'D': replay_D, 'stress': lambda rec: inter.stress_exactness(inter.get_calc(rec['extra']['crystal'])[1])})
     I = OnsagerCalc.Interstitial
     chk = run.Check(
         'C02',
